@@ -70,6 +70,11 @@ type Case struct {
 	// positional argument and then every keyword value, in order -- two entries (hex) per value.
 	// The Coq model and specification of string.format take these texts as their str_of / repr_of.
 	Texts []string `json:"texts,omitempty"`
+	// % interpolation cases sampled for Coq: for every value the operand offers -- the elements of a
+	// tuple; the dict itself and then its values; otherwise the operand -- 14 entries: str, repr (hex,
+	// from the value printer) and what "%d" "%i" "%o" "%x" "%X" "%e" "%f" "%g" "%E" "%F" "%G" "%c" print
+	// for that value alone (hex), or "!" when the conversion rejects it.
+	ITexts []string `json:"itexts,omitempty"`
 }
 
 func vNone() V             { return V{T: "none"} }
@@ -375,6 +380,7 @@ type sink struct {
 	seenClass map[string]int
 	coqN, pyN int
 	panics    int
+	forced    int // format / % cases sent to Coq because the Go copy of the specification disagrees
 }
 
 func newSink(r *hx.Rand) *sink {
@@ -446,8 +452,8 @@ func (s *sink) do(c Case) {
 		pe = s.pyEvery[""]
 	}
 	// deterministic stride with a per-class random phase
-	if c.Op == "bin" && c.Name == "%" {
-		ce = 0 // no Coq model: Go copy of the specification and CPython
+	if c.Op == "bin" && c.Name == "%" && c.X.T != "str" {
+		ce = 0
 	}
 	if c.Op == "call" && c.Name == "format" && c.X.T != "str" {
 		ce = 0
@@ -458,9 +464,23 @@ func (s *sink) do(c Case) {
 	if c.Op == "sort" && !sortIntKeys(&c) {
 		ce = 0 // the Coq model of sorted / min / max works on integer keys
 	}
-	if ce > 0 && (n+phase(c.Class, ce))%ce == 0 {
+	// a format / % case on which the Go copy of the specification disagrees is always
+	// evaluated in Coq as well (the first 300), whatever the stride
+	forced := false
+	if c.GM && ce > 0 && s.forced < 300 && ((c.Op == "call" && c.Name == "format") || (c.Op == "bin" && c.Name == "%")) {
+		forced = true
+		s.forced++
+	}
+	if ce > 0 && (forced || (n+phase(c.Class, ce))%ce == 0) {
 		c.K = "case"
 		s.coqN++
+		if c.Op == "bin" && c.Name == "%" {
+			if !observeInterpTexts(&c) {
+				c.K = "py"
+				s.coqN--
+				s.pyN++
+			}
+		}
 		if c.Op == "call" && c.Name == "format" {
 			if !observeTexts(&c) {
 				ce = 0
@@ -505,6 +525,62 @@ func observeTexts(c *Case) (ok bool) {
 			str = t
 		}
 		c.Texts = append(c.Texts, hex.EncodeToString([]byte(str)), hex.EncodeToString([]byte(repr)))
+	}
+	return true
+}
+
+// valueLetters: the conversions of % whose output depends on number / character formatting.
+const valueLetters = "dioxXefgEFGc"
+
+// observeInterpTexts records, for every value the right operand of % offers, its
+// str / repr texts (value printer, as observeTexts) and the output of each
+// single value-dependent conversion "%d" % (v,) ... "%c" % (v,) -- number and
+// character formatting are not C13's subject; the Coq model and specification
+// of interpolate take these texts as parameters and are checked on how a whole
+// template is scanned and its operands are selected and counted.
+func observeInterpTexts(c *Case) (ok bool) {
+	defer func() {
+		if e := recover(); e != nil {
+			c.ITexts, ok = nil, false
+		}
+	}()
+	x := c.Args[0]
+	var vals []V
+	switch x.T {
+	case "tuple":
+		vals = x.L
+	case "dict":
+		vals = append(vals, x)
+		for i := 1; i < len(x.L); i += 2 {
+			if x.L[i-1].T != "str" {
+				return false
+			}
+			vals = append(vals, x.L[i])
+		}
+	default:
+		vals = []V{x}
+	}
+	c.ITexts = []string{}
+	for _, v := range vals {
+		sv := toStarlark(v)
+		repr := sv.String()
+		str := repr
+		if t, isStr := starlark.AsString(sv); isStr {
+			str = t
+		}
+		c.ITexts = append(c.ITexts, hex.EncodeToString([]byte(str)), hex.EncodeToString([]byte(repr)))
+		for i := 0; i < len(valueLetters); i++ {
+			r := callSafe(prelude["mod"], starlark.Tuple{starlark.String("%" + valueLetters[i:i+1]), starlark.Tuple{toStarlark(v)}})
+			switch r.T {
+			case "str":
+				c.ITexts = append(c.ITexts, r.S)
+			case "err":
+				c.ITexts = append(c.ITexts, "!")
+			default:
+				c.ITexts = nil
+				return false
+			}
+		}
 	}
 	return true
 }
